@@ -12,7 +12,7 @@ RULE = (
     "documents = ranks of the bounded universes incl. the extension-syntax universe X2 (~~a~~, task items, www./http/e-mail/xmpp autolinks, <script>/<title>, pragma lines, ---/YAML lines); "
     "(E1) all six extensions off: HTML equals the independent CommonMark implementation's (C03's oracle) even on documents full of extension syntax; (E2) for 6 extension subsets S chosen by source hash "
     "(plus the full and the empty set): parse_S(d) == parse_{S restricted to extensions whose trigger syntax occurs in d}(d), compared on serialised tokens and HTML (trigger predicates are syntactic: '~'; '[ ]'/'[x]'; "
-    "'www.'/'http'/'ftp'/'@'/'mailto:'/'xmpp:'; '<'; a line starting '<!--' containing 'pyml'; first line starting '---'); (E3) front matter enabled and d = block ++ rest with a block PyYAML accepts as a mapping: "
+    "'www.'/'http'/'ftp'/'@'/'mailto:'/'xmpp:'; '<' + one of the nine disallowed tag names; a line starting '<!--' containing 'pyml'; first line starting '---'); (E3) front matter enabled and d = block ++ rest with a block PyYAML accepts as a mapping: "
     "tokens(d) == [front-matter] ++ tokens(rest) with line numbers shifted by the block length; with a block PyYAML rejects: tokens_on(d) == tokens_off(d); "
     "non-trivial = the document contains the trigger syntax of an extension switched between the compared configurations, or a front-matter block; distinct by source hash"
 )
@@ -29,7 +29,7 @@ def triggers(src):
         t.add("markdown-task-list-items")
     if re.search(r"www\.|http|ftp|@|mailto:|xmpp:", src, re.I):
         t.add("markdown-extended-autolinks")
-    if "<" in src:
+    if re.search(r"<\s*/?\s*(title|textarea|style|xmp|iframe|noembed|noframes|script|plaintext)\b", src, re.I):
         t.add("markdown-disallow-raw-html")
     if re.search(r"^<!--.*pyml", src, re.M):
         t.add("linter-pragmas")
